@@ -23,6 +23,8 @@ impl ser::Error for NotAString {
 
 pub struct StrOnly {
     pub human_readable: bool,
+    /// refuse even the string (a sink that is full, say)
+    pub fail: bool,
 }
 
 macro_rules! refuse {
@@ -49,7 +51,11 @@ impl ser::Serializer for StrOnly {
     }
 
     fn serialize_str(self, v: &str) -> Result<String, NotAString> {
-        Ok(v.to_owned())
+        if self.fail {
+            Err(NotAString("sink refused the string".into()))
+        } else {
+            Ok(v.to_owned())
+        }
     }
 
     refuse!(serialize_bool, bool);
